@@ -2944,7 +2944,11 @@ namespace Clipper2Lib {
     for (auto split : *splits)
     {
       if (!split->pts && split->splits &&
-        CheckSplitOwner(outrec, split->splits)) return true; //#942
+        split->recursive_split != outrec) //#942
+      {
+        split->recursive_split = outrec; // prevent infinite loops (as below)
+        if (CheckSplitOwner(outrec, split->splits)) return true;
+      }
       split = GetRealOutRec(split);
       if (!split || split == outrec || split->recursive_split == outrec) continue;
       split->recursive_split = outrec; // prevent infinite loops
